@@ -41,6 +41,10 @@ def bodies(kind, rng, ext):
         ("doc-then-garbage", okp + rng.choice([" x", "}", "{}", okp, " trailing garbage }}}", "\x00"])),
         ("error-then-token", D.render(D.obj(em), rng, plain=True) + okp),
         ("padded", " \r\n\t" + ok + "\n \t"),
+        # huge / fractional / negative numbers in the KNOWN numeric members
+        ("huge-known-number", D.render(D.obj([(k, (D.Raw(rng.choice(["1e30", "18446744073709551616", "123456789012345678901234567890", "-0.5", "-1e-9", "1e999", "3599.0", "-1"]))
+                                                   if k in ("expires_in", "exp", "iat", "nbf", "interval", "x_num") else v)) for k, v in m]
+                                                 + ([("expires_in", D.Raw(rng.choice(["1e30", "-0.5", "18446744073709551616"])))] if fam == "token" and not any(k == "expires_in" for k, _ in m) else [])), rng, plain=True)),
     ]
 
 
@@ -80,7 +84,7 @@ def run(tier, rng, C):
     cases = gen(tier, rng)
     v, stats = C.differential("C05", cases, nontrivial=lambda l, o: o.startswith("ok ") or o.startswith("server "))
     stats["rule"] = ("all statuses 100..=599 x rotating (7 request kinds, standard/extension response type, 15 Content-Type classes incl. absent, case variants, parameters, look-alikes, opaque bytes, "
-                     "14 body classes: empty, success doc, error doc, both shapes, wrong shape, truncated, text, invalid UTF-8, 200-deep nesting, 400-digit number, 1e999, document followed by junk, "
+                     "15 body classes (incl. huge/fractional/negative values of the known numeric members): empty, success doc, error doc, both shapes, wrong shape, truncated, text, invalid UTF-8, 200-deep nesting, 400-digit number, 1e999, document followed by junk, "
                      "error document followed by token document, whitespace padded) + the full product for statuses 200/400 (and a third of it for 201/204/302/401/500) + transport errors, "
                      "blocking and future-based; non-trivial = a typed success value or a typed server error came back")
     return v, stats
